@@ -217,6 +217,8 @@ class Manager(RoleClient):
 
     async def op_edit_mps(self, st: dict) -> None:
         m = self.pick(rows(self.sim.world, "mp_stream"), st.get("which", 0), st.get("ghost", False))
+        if "target" in st:
+            m = next((r for r in rows(self.sim.world, "mp_stream") if r["name"] == st["target"]), None)
         name = m["name"] if m else "ghostmps"
         await self.api.get_mps(name)
         model = self._mps_model({**st, "name": st.get("name", name)}, existing=m)
@@ -224,6 +226,8 @@ class Manager(RoleClient):
 
     async def op_delete_mps(self, st: dict) -> None:
         m = self.pick(rows(self.sim.world, "mp_stream"), st.get("which", 0), st.get("ghost", False))
+        if "target" in st:
+            m = next((r for r in rows(self.sim.world, "mp_stream") if r["name"] == st["target"]), None)
         name = m["name"] if m else "ghostmps"
         await self.api.get_mps(name)
         await self.api.delete_mps(name)
